@@ -77,9 +77,11 @@ func writeEntry(t *Table, entry kv.Entry) {
 		t.startKey = entry.Key()
 		t.startSeqNum = entry.SeqNum()
 	}
-	// Set ending entry values
+	// Set ending entry values. Entries are ordered by key, not by sequence
+	// number, so the bounds of the sequence numbers must be tracked explicitly.
 	t.endKey = entry.Key()
-	t.endSeqNum = entry.SeqNum()
+	t.startSeqNum = min(t.startSeqNum, entry.SeqNum())
+	t.endSeqNum = max(t.endSeqNum, entry.SeqNum())
 
 	// Add to metadata
 	t.searchIndex.IndexOffset(t.size)
